@@ -34,7 +34,9 @@ META = dict(
     note="FD oracle: eps=1e-6 central, tolerance 1e-6 relative (observed noise ~1e-9). Entries outside D's sparsity pattern (tendons / "
          "actuators coupling different branches) are documented to be dropped and are only counted. Zero velocity is excluded for the "
          "ellipsoid fluid model (norms are not differentiable there). State = mjSTATE_INTEGRATION; derived arrays (e.g. qacc) are allowed "
-         "to change, the statement only promises the input state.",
+         "to change, the statement only promises the input state. actuatorfrc sensors are left out of the mjd_inverseFD comparison "
+         "(inverse dynamics has no actuation stage, their value is whatever the last forward call left). Not covered: flex edge damping, "
+         "DC-motor / PID / SO3 actuator derivatives, the sleep-filtered paths, models with constraints in the FD Jacobians.",
     design_ref="DESIGN.md §3 C25")
 
 H = 0.005
@@ -64,7 +66,8 @@ SENSORS = None
 
 
 def feature_variants():
-    out = [("jdamp", None), ("tdamp_fixed", None), ("tdamp_spatial", None), ("fluid_box", None), ("fluid_ell", None), ("fluid_ell_coef", None)]
+    out = [("jdamp", None), ("tdamp_fixed", None), ("tdamp_spatial", None), ("fluid_box", None), ("fluid_ell", None), ("fluid_ell_coef", None),
+           ("fluid_box_sparse", None), ("fluid_ell_sparse", None)]        # jacobian="sparse": the sparse branches of the fluid derivatives
     for g, b, dy in itertools.product(GAIN, BIAS, DYN):
         out.append(("act", (g, b, dy, "joint", "")))
     for g, b, dy in (("affine", "affine", "filter"), ("muscle", "muscle", "muscle"), ("fixed", "affine", "none")):
@@ -74,6 +77,7 @@ def feature_variants():
     out.append(("act", ("fixed", "affine", "none", "joint", 'forcelimited="true" forcerange="-0.2 0.2"')))
     out.append(("act", ("fixed", "none", "none", "jointdamp", 'damping="0.05 0.02 0.01"')))
     out.append(("act", ("fixed", "affine", "none", "joint", 'ctrllimited="true" ctrlrange="-0.4 0.6"')))   # lattice ctrl values sit on both ends
+    out.append(("act", ("affine", "affine", "filter", "joint", "two")))      # second actuator (fixed gain, no dynamics): nu = 2, na = 1
     return out
 
 
@@ -99,10 +103,14 @@ def build(par, js, feat, arg, integrator="implicit", sensors=True):
         last = n - 1
         tendon = ('<tendon><spatial name="t0" damping="0.2 0.1 0.05"><site site="sw"/><site site="s0"/>%s</spatial></tendon>\n'
                   % ('<site site="s%d"/>' % last if last > 0 else ""))
-    elif feat == "fluid_box":
+    elif feat in ("fluid_box", "fluid_box_sparse"):
         option.update(density="300", viscosity="0.4", wind="0.3 -0.2 0.1")
-    elif feat in ("fluid_ell", "fluid_ell_coef"):
+        if feat.endswith("sparse"):
+            option.update(jacobian="sparse")
+    elif feat in ("fluid_ell", "fluid_ell_coef", "fluid_ell_sparse"):
         option.update(density="300", viscosity="0.4", wind="0.3 -0.2 0.1")
+        if feat.endswith("sparse"):
+            option.update(jacobian="sparse")
         gattr += ' fluidshape="ellipsoid"' + (' fluidcoef="0.7 0.4 1.2 0.8 1.3"' if feat == "fluid_ell_coef" else "")
     elif feat == "act":
         g, b, dy, trn, extra = arg
@@ -121,7 +129,11 @@ def build(par, js, feat, arg, integrator="implicit", sensors=True):
             target = 'joint="%s" gear="1.3"' % scal[-1]
         else:
             target = 'joint="%s" gear="%s"' % (jn[0][0], GEAR[jn[0][1]])
-        sections = '<actuator><general name="a0" %s %s %s %s%s %s/></actuator>\n' % (target, GAIN[g], BIAS[b], DYN[dy], lr, extra)
+        second = ""
+        if extra == "two":
+            extra = ""
+            second = '<general name="a1" joint="%s" gear="%s" gainprm="0.4" biastype="affine" biasprm="0 0 -0.2"/>' % (jn[-1][0], GEAR[jn[-1][1]])
+        sections = '<actuator><general name="a0" %s %s %s %s%s %s/>%s</actuator>\n' % (target, GAIN[g], BIAS[b], DYN[dy], lr, extra, second)
     sens = ""
     if sensors and jn:
         first_scal = scal[0] if scal else None
@@ -130,7 +142,7 @@ def build(par, js, feat, arg, integrator="implicit", sensors=True):
             sens += '<jointpos joint="%s"/><jointvel joint="%s"/>' % (first_scal, first_scal)
         sens += '<framepos objtype="site" objname="s%d"/><framelinvel objtype="site" objname="s%d"/>' % (n - 1, n - 1)
         if feat == "act":
-            sens += '<actuatorfrc actuator="a0"/>'
+            sens += '<actuatorfrc actuator="a0"/>' + ('<actuatorfrc actuator="a1"/>' if arg[4] == "two" else "")
         sens += "</sensor>\n"
     return U.std_tree_xml(par, js, default=default, sections=tendon + sections + sens, world_extra=world_extra, gattr=gattr,
                           option=A.option_elem(**option))
@@ -526,7 +538,7 @@ def run_model(lib, part, par, js, feat, arg, do_fd):
     c = dict(m=m, d=lib.make_data(m), d2=lib.make_data(m), d3=lib.make_data(m), mi=U.MInfo(m), xml=xml)
     c["polydamp"] = bool(np.any(np.array(m.dof_dampingpoly)) or (m.nactuator and np.any(np.array(m.actuator_dampingpoly))))
     c["gainvel"] = feat == "act" and arg[0] in ("affine", "muscle")
-    c["ns_inv"] = m.nsensordata - (1 if feat == "act" else 0)     # actuatorfrc is undefined under inverse dynamics (no actuation stage)
+    c["ns_inv"] = m.nsensordata - (m.nactuator if feat == "act" else 0)     # actuatorfrc is undefined under inverse dynamics (no actuation stage)
     ident = "parents=%s joints=%s feature=%s%s" % (par, js, feat, (" " + "/".join(str(x) for x in arg)) if arg else "")
     part_a(lib, part, c, ident, feat, par, js, arg)
     if do_fd:
@@ -555,7 +567,7 @@ def _chunk(chunk):
 
 
 FD_FEATS = {"jdamp", "tdamp_fixed", "fluid_ell"}
-FD_ACTS = {("affine", "affine", "filter", "joint", ""), ("fixed", "none", "none", "joint", ""),
+FD_ACTS = {("affine", "affine", "filter", "joint", ""), ("fixed", "none", "none", "joint", ""), ("affine", "affine", "filter", "joint", "two"),
            ("fixed", "affine", "none", "joint", 'ctrllimited="true" ctrlrange="-0.4 0.6"'), ("muscle", "muscle", "muscle", "joint", ""), ("fixed", "none", "integrator", "joint", ""),
            ("fixed", "affine", "filterexact", "joint", ""), ("affine", "affine", "filter", "tendon", ""),
            ("affine", "affine", "filter", "joint", 'actearly="true"')}
@@ -579,7 +591,7 @@ def run(ctx):
     ctx.extra["model_variants"] = len(items)
     ctx.extra["feature_variants"] = len(feats)
     ctx.rule = ("all rooted ordered forests with <=%d bodies x full product of the joint menu %s x %d feature variants (polynomial joint damping, "
-                "fixed/spatial tendon damping, inertia-box fluid, ellipsoid fluid x2, 45 gaintype x biastype x dyntype combinations on a joint "
+                "fixed/spatial tendon damping, inertia-box fluid (dense+sparse jacobian), ellipsoid fluid x3, 45 gaintype x biastype x dyntype combinations on a joint "
                 "transmission, 3 on a tendon transmission, actearly x2, forcerange, actuator damping); Part A: <=3 configurations x {zero, mixed, "
                 "-0.8*e_0} velocities x {implicit, implicitfast}, central FD eps=%g; Parts B/C (mjd_transitionFD, mjd_inverseFD: forward and centred, "
                 "integrators Euler/implicit/implicitfast, RK4 must raise) on the sub-lattice of %d feature variants at one mixed state. "
